@@ -99,12 +99,6 @@ Proof.
   - exists o. split; [exact Eo|apply same_ips_refl].
 Qed.
 
-Lemma apply_handler_pools w s k w1 r :
-  apply_handler rank w s k = Some (w1, r) -> s_pools (c_mem (w_ctl w1)) = s_pools (c_mem (w_ctl w)).
-Proof.
-  unfold apply_handler. destruct (set_balancer rank (w_ctl w) s (api_get w s) k) as [oc|] eqn:ES; [|discriminate].
-  intros [= <- _]. cbn. exact (proj1 (proj2 (set_balancer_spec rank _ _ _ _ _ ES))).
-Qed.
 
 (* ---------- the first full pass after a restart ---------- *)
 Section Pass.
@@ -163,7 +157,7 @@ Proof.
   - cbn [reload_pass] in H. destruct ks as [|k ks]; [discriminate|].
     destruct (apply_handler rank w s k) as [[w1 r]|] eqn:EH; [|discriminate].
     pose proof (apply_handler_inv rank w s k w1 r EH (fun _ => Hp) Hm) as (F1 & _ & Hm1 & Hp1 & _).
-    specialize (Hp1 Hp). pose proof (apply_handler_pools _ _ _ _ _ EH) as Hps1.
+    specialize (Hp1 Hp). pose proof (apply_handler_pools rank _ _ _ _ _ EH) as Hps1.
     inversion Hnd as [|? ? Hnin Hnd']; subst.
     assert (Hsort' : forall l1 s0 l2, rest = l1 ++ s0 :: l2 -> forall t, In t l2 -> (nst t <= nst s0)%nat).
     { intros l1 s0 l2 Heq. apply (Hsort (s :: l1) s0 l2). rewrite Heq. reflexivity. }
